@@ -136,6 +136,16 @@ class World(BaseWorld):
         return [e(), e(), step]
 
     def gen_op(self, rng):
+        op = self.gen_op_inner(rng)
+        if op is not None:
+            mode = self.cfg.get("observe", "every")
+            if mode == "sparse":
+                op["obs"] = rng.random() < 0.3
+            elif mode == "end":
+                op["obs"] = False
+        return op
+
+    def gen_op_inner(self, rng):
         if self.nops >= self.cfg["n_ops"]:
             return None
         if not self.live:
@@ -327,8 +337,17 @@ class World(BaseWorld):
         if fn is None:
             raise HarnessError("unknown op " + kind)
         ev = fn(op, a, impl, sh)
-        self.check_all(kind)
+        # Observation is itself an event: reading `best` (or iterating) after every single operation would resynchronise a
+        # lazily maintained cache and hide it.  Whether the simulator looks after this op is part of the recorded op.
+        if op.get("obs", True):
+            self.check_all(kind)
+        else:
+            self.probe("unobserved_ops")
         return [kind, ev, [len(s) for _, s in self.live]]
+
+    def finish(self):
+        self.check_all("finish")
+        return ["finish", [len(s) for _, s in self.live]]
 
     def guarded(self, kind, list_action, impl_action):
         """Run the list action on the shadow; if the list accepts it the
@@ -364,7 +383,8 @@ class World(BaseWorld):
                 self.probe("empty_argument")
                 self.interesting = True
         self.add_live(impl, sh)
-        self.check_all("new")
+        if op.get("obs", True):
+            self.check_all("new")
         return ["new", len(sh)]
 
     def op_append(self, op, a, impl, sh):
@@ -597,6 +617,7 @@ def gen_cfg(rng, prop, tier):
         "vals": [lo, hi],
         "p_spin": rng.choice([0.0, 0.5, 1.0]),
         "max_labels": rng.choice([0, 1, 2, 3]), "float_vals": rng.random() < 0.3,
+        "observe": rng.choice(["every", "every", "sparse", "sparse", "end"]),
         "weights": w,
     }
 
